@@ -137,6 +137,7 @@ func driveE2EBudget(c *ctx) error {
 		"link budget in {0..4} on the requestor and on the responder; 1-3 sequential requests (fresh chains) per pair of instances, also with per-request budgets that differ from request to request (hook sets MaxLinks for some only); responder-side cases also with the requestor holding the first 1-2 blocks (so the request carries do-not-send-first-blocks); observed = blocks loaded by the enforcing peer and whether the request failed; " +
 		"non-trivial = both budgets non-zero; distinct = distinct terms"
 	run := func(ec e2eBudgetCase, tag string) error {
+		c.inflight(ec)
 		obs, err := runE2EBudget(ec)
 		if err != nil {
 			obs, err = runE2EBudget(ec) // a request that timed out on a loaded machine is tried once more
